@@ -8,6 +8,8 @@ import (
 	"bufio"
 	"flag"
 	"fmt"
+	"os"
+	"os/exec"
 	"runtime"
 	"sync"
 	"sync/atomic"
@@ -22,10 +24,28 @@ func concDrain(args []string, out *bufio.Writer) {
 	n := fs.Int("n", 10, "")
 	from := fs.Int("from", 0, "")
 	lockHolders := fs.Bool("lockholders", true, "include InvalidateAll/Hottest/Coldest/GetMaximum callers")
+	backlogChild := fs.Bool("backlogchild", false, "internal: the backlog scenario of script -from, in this process")
 	fs.Parse(args)
+	if *backlogChild {
+		drainBacklog(&rng{s: scriptSeed(*seed, "concdrain-backlog", *from)}, out)
+		return
+	}
 	for i := *from; i < *from+*n; i++ {
 		r := &rng{s: scriptSeed(*seed, "concdrain", i)}
 		fmt.Fprintf(out, "script concdrain-%d-%d\n", *seed, i)
+		if i%6 == 5 {
+			// the backlog scenario in a process of its own, started with a processor count that is not a power of two: the
+			// cache sizes its buffers from GOMAXPROCS when the package is initialised
+			out.Flush()
+			cmd := exec.Command(os.Args[0], "conc-drain", "-backlogchild", "-seed", fmt.Sprint(*seed), "-from", fmt.Sprint(i))
+			cmd.Env = append(os.Environ(), fmt.Sprintf("GOMAXPROCS=%d", pick(r, []int{3, 5, 6, 7, 12, 16})))
+			res, err := cmd.Output()
+			out.Write(res)
+			if err != nil {
+				fmt.Fprintf(out, "childfailed %v\n", err)
+			}
+			continue
+		}
 		maxSize := 2 + r.intn(6)
 		var atomicEv, delEv atomic.Int64
 		do := &otter.Options[int, int]{
@@ -131,4 +151,124 @@ func concDrain(args []string, out *bufio.Writer) {
 		}
 		c.StopAllGoroutines()
 	}
+}
+
+// drainBacklog: writers run while an iteration holds the eviction lock, so that a backlog of write events builds up (the
+// write buffer fills, further writers queue for the lock); the iteration ends; after every call has returned and WITHOUT a
+// further cache call everything buffered must have been processed (C14: a maintenance run that stops before the buffer is
+// empty hands over to a successor).
+func drainBacklog(r *rng, out *bufio.Writer) {
+	procs := runtime.GOMAXPROCS(0)
+	rounded := 1
+	for rounded < procs {
+		rounded <<= 1
+	}
+	maxSize := 20 + r.intn(60)
+	var atomicEv, delEv atomic.Int64
+	c := otter.Must(&otter.Options[int, int]{
+		MaximumSize:      maxSize,
+		OnAtomicDeletion: func(e otter.DeletionEvent[int, int]) { atomicEv.Add(1) },
+		OnDeletion:       func(e otter.DeletionEvent[int, int]) { delEv.Add(1) },
+	})
+	for k := 0; k < 10; k++ {
+		c.Set(k, k)
+	}
+	c.CleanUp()
+	rounds := 2 + r.intn(3)
+	for round := 0; round < rounds; round++ {
+		writers := 2 + r.intn(5)
+		// enough writes to fill the write buffer (128 * the processor count rounded up to a power of two) and some more
+		total := 128*rounded + 16 + r.intn(200)
+		fits := r.chance(0.7)
+		if fits {
+			// ... or a backlog that just fits: more than 128 * the processor count, fewer than the buffer holds - every writer
+			// returns while the lock is still held, and the one maintenance run that follows must see to all of it
+			total = 128*rounded - 2 - r.intn(100)
+			if rounded > procs {
+				total = 128*procs + 2 + r.intn(128*(rounded-procs)-4)
+			}
+		}
+		release := make(chan struct{})
+		holding := make(chan struct{})
+		var wg sync.WaitGroup
+		wg.Add(1)
+		go func() {
+			defer wg.Done()
+			first := true
+			for range c.Coldest() {
+				if first {
+					first = false
+					close(holding)
+					<-release
+				}
+				break
+			}
+			if first {
+				close(holding)
+			}
+		}()
+		<-holding
+		var wwg sync.WaitGroup
+		left := total
+		for w := 0; w < writers; w++ {
+			wg.Add(1)
+			wwg.Add(1)
+			base := 100000*(round+1) + 10000*w
+			nw := total / writers
+			if w == writers-1 {
+				nw = left
+			}
+			left -= nw
+			go func() {
+				defer wg.Done()
+				defer wwg.Done()
+				for j := 0; j < nw; j++ {
+					c.Set(base+j, j)
+				}
+			}()
+		}
+		if fits {
+			wdone := make(chan struct{})
+			go func() { wwg.Wait(); close(wdone) }()
+			select {
+			case <-wdone:
+			case <-time.After(2 * time.Second):
+			}
+		}
+		// the writers fill the buffer and then queue for the lock; give them time, then let the iteration end
+		for t := 0; t < 400; t++ {
+			time.Sleep(500 * time.Microsecond)
+			if _, wb, _ := otter.VerifDrainState(c); wb >= uint64(128*rounded)-1 {
+				break
+			}
+		}
+		time.Sleep(time.Duration(r.intn(2000)) * time.Microsecond)
+		close(release)
+		wg.Wait()
+		var ds uint32
+		var wb uint64
+		var free bool
+		deadline := time.Now().Add(1500 * time.Millisecond)
+		for t := 0; ; t++ {
+			time.Sleep(50 * time.Microsecond)
+			ds, wb, free = otter.VerifDrainState(c)
+			if ds == 0 && wb == 0 && free && atomicEv.Load() == delEv.Load() {
+				break
+			}
+			if t >= 200 && time.Now().After(deadline) {
+				break
+			}
+			if t >= 200 {
+				time.Sleep(time.Millisecond)
+			}
+		}
+		size := c.EstimatedSize()
+		fmt.Fprintf(out, "quiescent round=%d writers=%d others=1 ds=%d wb=%d lockfree=%v atomic=%d delivered=%d size=%d max=%d backlog=%d fits=%v procs=%d\n",
+			round, writers, ds, wb, free, atomicEv.Load(), delEv.Load(), size, maxSize, total, fits, procs)
+		if ds != 0 || wb != 0 {
+			break
+		}
+	}
+	c.StopAllGoroutines()
+	out.Flush()
 }
